@@ -435,6 +435,40 @@ void obs_section0(Ctx &c, Node &n, const Section &s, const std::string &where) {
 
 } // namespace
 
+namespace {
+template<typename E> void upd(std::map<std::string, std::string> &out, const std::string &path, const E &e) {
+    try { out[path] = std::to_string((long long) e.updatedAt()); } catch (const std::exception &) { out[path] = "<throws>"; }
+}
+void upd_sources(std::map<std::string, std::string> &out, const std::string &path, const Source &s, int depth) {
+    upd(out, path, s);
+    if (depth > 8) return;
+    try { for (auto &c : s.sources()) upd_sources(out, path + "/" + c.name(), c, depth + 1); } catch (const std::exception &) {}
+}
+void upd_sections(std::map<std::string, std::string> &out, const std::string &path, const Section &s, int depth) {
+    upd(out, path, s);
+    try { for (auto &p : s.properties()) upd(out, path + "/properties/" + p.name(), p); } catch (const std::exception &) {}
+    if (depth > 8) return;
+    try { for (auto &c : s.sections()) upd_sections(out, path + "/" + c.name(), c, depth + 1); } catch (const std::exception &) {}
+}
+}
+void observe_updated(const File &f, std::map<std::string, std::string> &out) {
+    out.clear();
+    upd(out, "/", f);
+    try {
+        for (auto &b : f.blocks()) {
+            std::string bp = "/blocks/" + b.name();
+            upd(out, bp, b);
+            for (auto &x : b.dataArrays()) upd(out, bp + "/data_arrays/" + x.name(), x);
+            for (auto &x : b.dataFrames()) upd(out, bp + "/data_frames/" + x.name(), x);
+            for (auto &x : b.tags()) { upd(out, bp + "/tags/" + x.name(), x); try { for (auto &ft : x.features()) upd(out, bp + "/tags/" + x.name() + "/features/" + ft.id(), ft); } catch (const std::exception &) {} }
+            for (auto &x : b.multiTags()) { upd(out, bp + "/multi_tags/" + x.name(), x); try { for (auto &ft : x.features()) upd(out, bp + "/multi_tags/" + x.name() + "/features/" + ft.id(), ft); } catch (const std::exception &) {} }
+            for (auto &x : b.groups()) upd(out, bp + "/groups/" + x.name(), x);
+            for (auto &x : b.sources()) upd_sources(out, bp + "/sources/" + x.name(), x, 1);
+        }
+        for (auto &s : f.sections()) upd_sections(out, "/sections/" + s.name(), s, 1);
+    } catch (const std::exception &) {}
+}
+
 static ObsOpts g_plain_opts;
 #define SINGLE(name, T, body) Node name(const T &e) { Ctx c; c.opt = &g_plain_opts; c.viol = nullptr; c.getters = 0; Node n; body; return n; }
 SINGLE(observe_block, Block, { named_fields(c, n, e); metadata_field(c, n, e); })
